@@ -10,7 +10,7 @@
   domains and keys are abstract identities: the theorems are about names that the server keeps
   apart, i.e. clean swamp-name parts (non-empty, no '/').  What the real stack does with an empty
   key or a key containing '/' is covered by the driver's executable extension and the
-  correspondence run (findings C27-empty-key-blocks-core-save, C27-key-separator-collision).
+  correspondence run (findings C27-empty-key-save-ignored, C27-key-with-separator-not-indexed).
   Model: Hv/Misc/Hydrex.lean.
 -/
 import Hv.Misc.Hydrex
